@@ -34,4 +34,18 @@ theorem parseKml_validated {Î¹ : Type} (grammar : Î¹ â†’ Option Plan) (input : Î
       simp [hg, validateCommand, hv] at h
       exact âŸ¨st, rfl, h.symm, hvâŸ©
 
+theorem operationParse_validated {Î¹ : Type} (grammar : Î¹ â†’ Option Command) (op : OperationSrc Î¹) (cmd : Command)
+    (h : operationParse grammar op = .ok cmd) : validateCommand cmd = .ok () := by
+  cases op with
+  | command text => exact (parseKip_validated grammar text cmd h).2
+  | ast c =>
+    simp only [operationParse, runRouteFrom, KipGuardTables.operationAstOrder, List.foldl, routeStep] at h
+    cases hv : validateCommand c with
+    | error e => simp [hv] at h
+    | ok u =>
+      cases u
+      simp [hv] at h
+      subst h
+      exact hv
+
 end AndaVerif.KmlGuard
